@@ -7,13 +7,13 @@ ENTRY = {
     "translators": [trans_ssz],
     "streams": [
         {"name": "cluster", "drive": "drive-cluster", "model": "drv-cluster",
-         "reset_ops": ["doc"],
+         "reset_ops": ["doc", "create"],
          "n_quick": 12, "seeds_quick": 1, "n_thorough": 72, "seeds_thorough": 4,
          "search_seeds": 1},
     ],
     "monitor_sigs": ["cluster:"],
     "level_text": "Kernel-checked Lean theorems over a generic model of the fastssz hash walker as used by cluster/ssz.go (PutBytes, PutUint64, PutBool, PutUint64Array, putByteList, putBytesN, putK1SigList, Merkleize, MerkleizeWithMixin incl. the limit 0/1/depth cases and zero hashes) producing chunk trees, for every 2-to-1 compression function h on 32-byte chunks: two chunk trees of the same schema that hash to the same root are equal unless an explicit collision of h exists (merkle_collision, encode_injective_partial, tamper_yields_collision) — tamper evidence is reduced to SHA-256 collision resistance, a hypothesis, never an axiom. The reduction needs two size hypotheses which the Go code does not enforce (putBytesN left-pads shorter values; raw PutBytes right-pads without length mix-in); the unrestricted statement is refuted by kernel-checked witnesses (fixed_shorter_value_same_root, raw_trailing_zero_same_root, raw_empty_field_shifts). Per format version v1.0 … v1.11, decided by the kernel on data regenerated from the Go source on every run (translators T-ssz: symbolic evaluation of hashDefinition/hashLock per version; T-fields: per-version JSON structs): every JSON leaf of a definition / lock file is read by the config-, definition- or lock-hash schema or is one of the allow-listed fields that are themselves the hashes / signatures over the rest or are constant-checked at decode (schema_covers_fields_v1_0 … v1_11, schema_versions_complete, definition_hash_reads_config_hash_from_v1_3), which schemas are well-formed (modern_schema_wf, legacy_schema_wf) and exactly which leaves go through a raw PutBytes (raw_putbytes_fields_definition, raw_putbytes_fields_lock). The model, the regenerated schemas and a core-Lean SHA-256 are tied to the Go code by bit-for-bit reproduction of hashDefinition (config + definition hash) and hashLock on random valid locks of every version, on struct-level mutants (odd sizes, error and panic paths) and on decoded altered files.",
-    "level_note": "Trusted: Lean kernel; translator trans-ssz (its primitive helpers are pinned to the source text the model mirrors, anything else fails closed); the Go correspondence harness and line driver. Checked by correspondence / monitors only (not proved): JSON codecs (decode-encode-decode keeps all hashes and bytes), VerifyHashes/VerifySignatures reject every representative alteration of every JSON leaf of valid definition and lock files of all 12 versions, create cluster outputs (lock verifies, keystores = lock public shares, deposit data and builder registrations verify, every threshold subset of key shares recombines to the validator key, combine command). Cryptography (SHA-256 collision resistance, BLS, secp256k1, EIP-712) is by hypothesis / exercised, not verified.",
+    "level_note": "Trusted: Lean kernel; translator trans-ssz (its primitive helpers are pinned to the source text the model mirrors, anything else fails closed); the Go correspondence harness and line driver. Checked by correspondence / monitors only (not proved): JSON codecs (decode-encode-decode keeps all hashes and bytes), VerifyHashes/VerifySignatures reject every representative alteration of every JSON leaf of valid definition and lock files of all 12 versions, create cluster outputs (lock verifies, keystores = lock public shares, deposit data and builder registrations verify, every threshold subset of key shares recombines to the validator key; the real cmd/combine.Combine run on every subset of node directories of exactly threshold size (n <= 5, sampled above), on all directories and on threshold-1 directories: accept/refuse compared with the model rule combineAccepts (theorems combine_accepts_iff, combine_exact_threshold_accepted), recombined keystores compared with tbls.RecoverSecret of the same shares and the lock's validator keys). Cryptography (SHA-256 collision resistance, BLS, secp256k1, EIP-712) is by hypothesis / exercised, not verified.",
     "trusted_base": [
         "model CharonV/Model/SszSchema.lean mirrors github.com/ferranbt/fastssz v1.0.0 hasher.go (AppendBytes32, PutBytes, PutUint64, PutBool, PutUint64Array, Merkleize, MerkleizeWithMixin, merkleizeImpl, CalculateLimit) and cluster/helpers.go (putByteList, putBytesN, putHexBytes20, putK1SigList, leftPad, to0xHex, from0xHex), Definition.LegacyValidatorAddresses; tied by bit-for-bit reproduction of hashDefinition/hashLock roots (stream cluster, ops `hash`)",
         "translator T-ssz (harness/cmd/trans-ssz, go/ast + go/types): symbolic evaluation of hashDefinition / hashLock and everything they call in cluster/ssz.go per version with version and configOnly known; helper functions above are primitives whose source text must match; unknown Go fails closed",
